@@ -194,7 +194,7 @@ def bounded(ctx):
     B = Bounded(ctx, rule="cache_create from_envelope and payload_extract through their main(): hierarchies to depth 3, pattern pairs {none, nothing, everything, "
                           "partial}^2; every integrated payload of the input hierarchy must be in exactly one place with identical bytes, all other members "
                           "byte-identical; oracle: independent CBOR reader + reference semantics written from the statement; distinct by (hierarchy, patterns)",
-                bound="depth <= 3, <= 3 integrated members per level, 16 pattern pairs, eb in {1, 8, 16, 64}", budget_s=60 if quick else 600)
+                bound="depth <= 3, <= 3 integrated members per level, 42 pattern pairs (incl. prefix-only and infix-only patterns), eb in {1, 8, 16, 64}", budget_s=60 if quick else 600)
     cc = importlib.import_module("suit_generator.cmd_cache_create")
     pe = importlib.import_module("suit_generator.cmd_payload_extract")
     d = B.fresh_dir("x")
@@ -208,8 +208,10 @@ def bounded(ctx):
         "no-payloads": S.make_envelope("r3"),
         "dependency-unchanged-last": S.make_envelope("r4", payloads=[("#p1", b"\x11")], deps=[("#dep_b", childB), ("#dep_z", S.make_envelope("z", payloads=[("#keep_z", b"\x05")]))]),
     }
-    pats = [None, "nothing", ".*", "#p.*|#bp1|#gp2", "#keep.*"]
-    dpats = [None, "nothing", "#dep_.*", "#dep_a"]
+    # incl. patterns that match only a proper PREFIX ("#p", "#dep") or an INFIX ("p1", "dep_b") of some names: they select nothing
+    # under the full-match semantics of the statement and something under match / search
+    pats = [None, "nothing", ".*", "#p.*|#bp1|#gp2", "#keep.*", "#p", "p1|keep"]
+    dpats = [None, "nothing", "#dep_.*", "#dep_a", "#dep", "dep_b"]
     n = 0
     for hname, env in hier.items():
         for omit in pats:
